@@ -13,12 +13,6 @@ SHORT = 'sender'
 
 ENV = '''
 use std::collections::VecDeque;
-#[derive(Debug, Clone, Copy, PartialEq, Eq, Structural)]
-pub struct StatusCode { pub bits: u32 }
-impl StatusCode {
-    pub const BadInvalidState: StatusCode = StatusCode { bits: 0x80AF_0000 };
-    pub const BadCommunicationError: StatusCode = StatusCode { bits: 0x8005_0000 };
-}
 pub struct SecureChannel { pub x: u64 }
 pub struct SupportedMessage { pub x: u64 }
 pub struct MessageChunk { pub data: Vec<u8> }
@@ -105,6 +99,7 @@ def build(manifest):
     types = re.sub(r'(?m)^enum ', 'pub enum ', types)
     a = Asm()
     a.add('#![feature(allocator_api)]\nuse vstd::prelude::*;\nverus! {\nglobal size_of usize == 8;\n', 'prelude', 'env')
+    a.add(status_code_struct(manifest), 'status codes', 'env')      # every status code of the real file (D14)
     a.add(ENV, 'env', 'env')
     a.add(norm_vis(types), 'types', 'env')
     a.add('impl SendBuffer {')
